@@ -135,6 +135,10 @@ class GroupingSuite(Suite):
                 if rng.random() < 0.1:
                     ps.append(ps[0])           # repeated identifier (gene-level shape)
                 m.append([f"pep{j}", ps])
+            if rng.random() < 0.15:
+                # proteins present in two (or three) of the digest maps that were merged: EVERY peptide of theirs lists them that often
+                doubled = {p: rng.choice([2, 2, 3]) for p in rng.sample(prots, rng.randint(1, max(1, npr // 3)))}
+                m = [[e, [q for p in ps for q in [p] * doubled.get(p, 1)]] for e, ps in m]
             yield {"mode": rng.choice(list(MODES)), "map": m}
 
     def impl(self, case):
